@@ -291,7 +291,7 @@ def main(argv=None):
 			if 'case' not in data:
 				print(f'[{prop}] replay file names a broken obligation, not an input: {data.get("broken")}')
 			else:
-				mod.KINDS[data['kind']](ctx, [data['case']])
+				run_kind(ctx, mod, data['kind'], [data['case']])
 				for v in ctx.violations:
 					print(json.dumps(v, indent=1, default=str))
 				print(f'[{prop}] replay: ' + ('violation reproduced' if ctx.violations else 'no violation'))
@@ -426,6 +426,61 @@ def _verdict(ctx, mod, prop, tier, seed, repo, st, props, known):
 	return exit_code
 
 
+def _impl_frames(tb, repo):
+	"""frames of the traceback that lie in the implementation under test"""
+	src = os.path.realpath(os.path.join(repo, 'src')) + os.sep
+	return [f for f in traceback.extract_tb(tb) if os.path.realpath(f.filename).startswith(src)]
+
+
+def run_kind(ctx, mod, kind, cases):
+	"""Hand a batch to the kind's function.  The harnesses handle every exception the unchanged implementation
+	raises on their inputs (the quick and thorough passes on /repo complete), so an exception escaping a batch
+	function means that the code under test no longer behaves as it did when the correspondence was validated:
+	the run must not end as a framework error (exit 2, no verdict).  If the exception comes out of the
+	implementation's own frames the batch is re-run case by case to isolate an input on which the
+	implementation raises where neither the model nor the specification predicts an error, and that input is
+	reported as a violation; if it cannot be isolated (or the exception is raised by harness code digesting an
+	unexpected value) the correspondence is reported as broken."""
+	try:
+		mod.KINDS[kind](ctx, cases)
+		return
+	except (wire.ModelError, KeyboardInterrupt):
+		raise
+	except Exception as e:
+		tb = e.__traceback__
+		frames = _impl_frames(tb, ctx.repo)
+		trace = ''.join(traceback.format_exception(type(e), e, tb))[-3000:]
+		head = f'{type(e).__name__}: {str(e)[:300]}'
+	if frames and not ctx.replaying:
+		t_end = time.time() + 120
+		for c in (cases if len(cases) > 1 else []):
+			if time.time() > t_end:
+				break
+			sub = Ctx(ctx.prop, ctx.tier, ctx.seed, ctx.repo)
+			sub.replaying = True
+			try:
+				mod.KINDS[kind](sub, [c])
+			except wire.ModelError:
+				break
+			except Exception as e2:
+				if type(e2).__name__ == head.split(':')[0] and _impl_frames(e2.__traceback__, ctx.repo):
+					cases = [c]
+					trace = ''.join(traceback.format_exception(type(e2), e2, e2.__traceback__))[-3000:]
+					break
+	if frames and len(cases) == 1:
+		where = frames[-1]
+		ctx.violation(kind, cases[0],
+			f'the implementation raises {head} (at {os.path.relpath(where.filename, ctx.repo)}:{where.lineno} in '
+			f'{where.name}) on an input for which neither the model nor the specification predicts an error and '
+			f'which the harness evaluates without an exception on the code it was validated against',
+			impl=trace)
+	else:
+		ctx.broke(f'correspondence: evaluation of stream kind {kind!r}',
+			f'{head} escaped the batch function ({len(cases)} cases, '
+			f'{"in implementation frames" if frames else "raised in harness code digesting the results"}); '
+			f'traceback tail: {trace[-1000:]}')
+
+
 def run_campaign(ctx, mod):
 	"""corpus first, then the harness's generator; cases are grouped per kind and handed to the
 	kind's batch function"""
@@ -436,7 +491,7 @@ def run_campaign(ctx, mod):
 		for k in ([kind] if kind else list(pending)):
 			cases = pending.pop(k, [])
 			if cases:
-				mod.KINDS[k](ctx, cases)
+				run_kind(ctx, mod, k, cases)
 
 	if os.path.isdir(corpus_dir):
 		for fn in sorted(os.listdir(corpus_dir)):
